@@ -68,6 +68,10 @@ type VerifHooks struct {
 	WalFileOp func(file any, op string, b []byte, size int64)
 	Replay    func(fs *VerifStore, op uint8, lsn uint64, pageID uint64, cellID uint32, redo bool)
 	LRU       func(l *LRUCache, kind int, key any, n *VerifNode)
+	// OpenFault, if set, is asked before the data file or the log file of a
+	// database is opened; a non-nil result is returned in place of the open
+	// (a failing system call: EMFILE, EIO ...).
+	OpenFault func(path string) error
 }
 
 var verifHooks *VerifHooks
@@ -176,6 +180,13 @@ func verifLRU(l *LRUCache, kind int, key any, n *btreeNode) {
 	if h := verifHooks; h != nil && h.LRU != nil {
 		h.LRU(l, kind, key, n)
 	}
+}
+
+func verifOpenFault(path string) error {
+	if h := verifHooks; h != nil && h.OpenFault != nil {
+		return h.OpenFault(path)
+	}
+	return nil
 }
 
 func verifWalTruncate(file any, size int64) {
